@@ -89,6 +89,13 @@ class VariationalLatentVariable(LatentVariable):
         # This will add the KL divergence KL(q(X) || p(X)) to the loss
         self.register_added_loss_term("x_kl")
 
+    def __getstate__(self):
+        # The KL term of the last call carries an autograd graph: it can neither be deep-copied nor does it belong to
+        # the state of the model. The next call computes it again.
+        state = self.__dict__.copy()
+        state["_added_loss_terms"] = {name: None for name in self._added_loss_terms}
+        return state
+
     def forward(self):
         from ...mlls import KLGaussianAddedLossTerm
 
